@@ -570,3 +570,43 @@ func (r *Report) AtomicGroup(key, what string, fn *ssa.Function, kinds []groupKi
 		r.Check(key+"#"+k.Name, rule, what+": "+k.Name+" is updated together with the other representations (all or none on every path)", e.InstrPos(inst[i][0]), fn, ok, why, true)
 	}
 }
+
+// cmpOriented views a comparison with the operand satisfying `left` on the left-hand side (`a < b` and `b > a` are the
+// same test; rules must not depend on which way the source spells it).
+func cmpOriented(cond ssa.Value, left func(ssa.Value) bool) (x, y ssa.Value, op token.Token, ok bool) {
+	b, isB := cond.(*ssa.BinOp)
+	if !isB {
+		return nil, nil, 0, false
+	}
+	switch b.Op {
+	case token.EQL, token.NEQ, token.LSS, token.LEQ, token.GTR, token.GEQ:
+	default:
+		return nil, nil, 0, false
+	}
+	if left(b.X) {
+		return b.X, b.Y, b.Op, true
+	}
+	if left(b.Y) {
+		return b.Y, b.X, flipCmp(b.Op), true
+	}
+	return nil, nil, 0, false
+}
+
+// negCmp: the comparison that holds exactly when `a op b` does not.
+func negCmp(op token.Token) token.Token {
+	switch op {
+	case token.EQL:
+		return token.NEQ
+	case token.NEQ:
+		return token.EQL
+	case token.LSS:
+		return token.GEQ
+	case token.GEQ:
+		return token.LSS
+	case token.GTR:
+		return token.LEQ
+	case token.LEQ:
+		return token.GTR
+	}
+	return op
+}
